@@ -215,6 +215,11 @@ func (s Sample) GeoMean() float64 {
 			// doesn't turn the update into 0/0.
 			continue
 		}
+		if x <= 0 {
+			// As in the unweighted GeoMean, a non-positive
+			// value that counts makes the result undefined.
+			return math.NaN()
+		}
 		wsum += w
 		lx := math.Log(x)
 		m += (lx - m) * w / wsum
